@@ -42,11 +42,12 @@ inductive Val where
   | bytes (b : Bytes)                       -- a `[]byte` value (the slice's visible content; aliasing is not modelled)
   | keys (ks : List Bytes)                  -- a `map[string]struct{}` used as a set of keys
   | bools (l : List Bool)                   -- the answers a callback will give, in call order (see `Stmt.cb`)
-  | ints (l : List Int)                     -- the log of what callbacks were given
+  | ints (l : List Int)                     -- the log of what callbacks were given; also a `[]int64`
+  | u64s (l : List UInt64)                  -- a `[]uint64`, or a `[]float64` as bit patterns
   deriving DecidableEq, Repr, Inhabited
 
 inductive BinOp where
-  | add | sub | and | or | shr | shl | eq | ne | lt | le | gt | ge | xor
+  | add | sub | and | or | shr | shl | eq | ne | lt | le | gt | ge | xor | div
   deriving DecidableEq, Repr
 
 inductive Expr where
@@ -71,6 +72,10 @@ inductive Expr where
   | nilB                                    -- `nil` as a byte slice
   | litB (bs : List Nat)                    -- `[]byte("…")`: the bytes of a string literal
   | zerosB (n : Nat)                        -- a zeroed `[n]uint8` array, as a slice
+  | nilI                                    -- an empty `[]int64`
+  | nilU                                    -- an empty `[]uint64` / `[]float64`
+  | pushI (a e : Expr)                      -- `append(a, e)` for one int64
+  | pushU (a e : Expr)                      -- `append(a, e)` for one uint64 / float64 (bits)
   | pushB (a e : Expr)                      -- `append(a, e)` for one byte `e`
   | le32 (a : Expr)                         -- `binary.LittleEndian.Uint32(a)` (a uint32 is carried as a `u64` below 2^32)
   | lenK (a : Expr)                         -- `len(m)` of a key set
@@ -166,6 +171,7 @@ def binop (op : BinOp) (a b : Val) : Option Val :=
   match op, a, b with
   | .add, .int x, .int y => some (.int (x + y))
   | .sub, .int x, .int y => some (.int (x - y))
+  | .div, .int x, .int y => if y = 0 then none else some (.int (Int.tdiv x y))   -- Go's `/` truncates toward zero
   | .add, .u64 x, .u64 y => some (.u64 (x + y))
   | .sub, .u64 x, .u64 y => some (.u64 (x - y))
   | .and, .u64 x, .u64 y => some (.u64 (x &&& y))
@@ -342,6 +348,26 @@ def evalE (s : St) : Expr → EOut
   | .nilB => .val (.bytes #[])
   | .litB bs => .val (.bytes (bs.map UInt8.ofNat).toArray)
   | .zerosB n => .val (.bytes (Array.replicate n 0))
+  | .nilI => .val (.ints [])
+  | .nilU => .val (.u64s [])
+  | .pushI a e =>
+    match evalE s a with
+    | .val (.ints l) =>
+      (match evalE s e with
+       | .val (.int y) => .val (.ints (l ++ [y]))
+       | .val _ => .stuck "append operand"
+       | o => o)
+    | .val _ => .stuck "append operand"
+    | o => o
+  | .pushU a e =>
+    match evalE s a with
+    | .val (.u64s l) =>
+      (match evalE s e with
+       | .val (.u64 y) => .val (.u64s (l ++ [y]))
+       | .val _ => .stuck "append operand"
+       | o => o)
+    | .val _ => .stuck "append operand"
+    | o => o
   | .pushB a e =>
     match evalE s a with
     | .val (.bytes x) =>
